@@ -16,6 +16,8 @@ func init() {
 		ruleDef{"C01.R4", c01r4},
 		ruleDef{"C01.R5", c01r5},
 		ruleDef{"C01.R6", c01r6},
+		// the fingerprint's input is the captured record: the capture rules of C04 and the record wiring of C06.R4 are necessary conditions here too
+		ruleDef{"C04.R2", c04r2}, ruleDef{"C04.R3", c04r3}, ruleDef{"C04.R4", c04r4}, ruleDef{"C04.R5", c04r5}, ruleDef{"C06.R4", c06r4},
 	)
 }
 
@@ -105,7 +107,7 @@ func purityRule(r *R, rule string, fn *ssa.Function, cut map[string]bool, leafEx
 			continue
 		}
 		for _, w := range globalWriters(all, g) {
-			if w.Fn.Name() == "init" && w.Fn.Parent() == nil {
+			if isInitFn(w.Fn) {
 				continue
 			}
 			if why, ok := leafExceptions["global:"+g.Pkg.Pkg.Name()+"."+g.Name()]; ok {
@@ -133,10 +135,19 @@ func purityRule(r *R, rule string, fn *ssa.Function, cut map[string]bool, leafEx
 		if _, ok := purePkgs[pk]; ok {
 			continue
 		}
+		if why, ok := pureLeaves[lf]; ok {
+			ol.OK("reviewed: %s", why)
+			continue
+		}
 		ol.Fail("the fingerprint computation calls %s (package %s), which is not in the reviewed list of deterministic, state-free packages (time, rand, os, net, … make the value depend on more than the ClientHello)", lf, pk)
 	}
 	r.assume("S7: the listed standard-library functions are deterministic functions of their arguments")
 	r.assume("S8: tlsx/utls parsing correctness is trusted; only their purity is analysed")
+}
+
+// individually reviewed pure functions from packages that are not pure as a whole
+var pureLeaves = map[string]string{
+	"net.ParseIP": "pure string-to-address parser (no resolver, no I/O)",
 }
 
 type ja3List struct {
